@@ -1382,6 +1382,12 @@ def demography_contract(g):
             if not text_of(p.result).endswith("[0]") or "self._change_time_measure(" not in text_of(p.result):
                 return "does not return the converted times (result [0])"
             return None
+        if not any(ev["kind"] == "call" and ev["func"] == "self._change_time_measure" for p in paths for ev in p.events):
+            # a different implementation of the map: its meaning is not decided by this data-flow contract (it may be a
+            # mathematically equal rewrite); undecided here, the bounded integral / round-trip clauses decide it
+            g.ob(f"{name}:is-change-time-measure-of-the-stored-history", False, f"returns _change_time_measure({', '.join(want)})[0]",
+                 "the method no longer calls _change_time_measure: not decided by this contract", verdict="does-not-attach")
+            continue
         g.forall_paths(f"{name}:is-change-time-measure-of-the-stored-history", paths, conv,
                        f"returns _change_time_measure({', '.join(want)})[0]")
     # as_dict round trip: stored 2N, as_dict gives (2N)/2, the constructor doubles again -- exact in binary64
